@@ -235,7 +235,7 @@ def run_pipeline(pid, tier, seed, presets, per, budget, malmax, over, rounds=1, 
                 for nt in r.get("notes") or []:
                     key = r["t"] + ": " + nt[:100]
                     stats["notes"][key] = stats["notes"].get(key, 0) + 1
-                for d in r["devs"]:
+                for d in (r.get("devs") or []):
                     devs.append({"prop": d["prop"], "type": r["t"], "preset": o["preset"], "dev": d,
                                  "case": o["cases"].get(r["id"])})
                 if len(stats["samples"]) < 4 and r["kind"] == "value" and r["nonzero"] and r["bytes"] < 200:
@@ -365,7 +365,7 @@ def replay(pid, path):
     for r in out["reports"]:
         if r.get("summary"):
             continue
-        for d in r["devs"]:
+        for d in (r.get("devs") or []):
             devs.append({"prop": d["prop"], "type": r["t"], "preset": doc["preset"], "dev": d, "case": case})
     viol, known, notes = adjudicate(pid, devs)
     return report(pid, viol, known, notes)
@@ -442,7 +442,7 @@ def selftest():
               types="^common\\.(Checkpoint|Fork)$|^phase0\\.AttestationData$")
     lines = [l for l in open(cpath) if l.strip()]
     out = eval_shard(("minimal", schemas_dir, lines, binary, 0, 300))
-    base = sum(len(r.get("devs", [])) for r in out["reports"] if not r.get("summary"))
+    base = sum(len(r.get("devs") or []) for r in out["reports"] if not r.get("summary"))
     lib.log("selftest: unmodified results -> %d deviations" % base)
     if base != 0:
         ok = False
@@ -465,7 +465,7 @@ def selftest():
         rep = os.path.join(wd, "report_%s.ndjson" % what)
         p = lib.run([binary, "check", "-schemas", os.path.join(schemas_dir, "schemas_minimal.json"), "-results", rp,
                      "-out", rep], env=_go_env(), timeout=300)
-        n = sum(len(r.get("devs", [])) for r in lib.read_ndjson(rep) if not r.get("summary"))
+        n = sum(len(r.get("devs") or []) for r in lib.read_ndjson(rep) if not r.get("summary"))
         lib.log("selftest: corrupted %s -> %d deviations" % (what, n))
         if n == 0:
             ok = False
